@@ -567,3 +567,100 @@ def replay_c08_small_ext(args):
         except Exception as e:
             bad.append((repr(e), a))
     return (len(bad) > 0), "c08_small_ext %s GF(%d^%d): %d mismatches; first %s" % (args["impl"], q, d, len(bad), str(bad[:1])[:200])
+
+
+def _sgn0_rfc(xs):
+    sign, zero = 0, 1
+    for x in xs:
+        sign_i = x % 2
+        zero_i = 1 if x == 0 else 0
+        sign = sign | (zero & sign_i)
+        zero = zero & zero_i
+    return sign
+
+
+def replay_c14_sgn0(args):
+    from py_ecc import fields as f
+    bad = []
+    rng = random.Random(8)
+    m = args.get("model") or {}
+    for curve in ("bn128", "bls12_381"):
+        FQ = getattr(f, "optimized_%s_FQ" % curve)
+        FQ2 = getattr(f, "optimized_%s_FQ2" % curve)
+        FQ12 = getattr(f, "optimized_%s_FQ12" % curve)
+        p = FQ.field_modulus
+        vals = [0, 1, 2, p - 1, p - 2, (p - 1) // 2, (p + 1) // 2] + [rng.randrange(p) for _ in range(4)]
+        if m:
+            vals += [int(m.get("x%d" % i, 0)) % p for i in range(12)]
+        for a in vals:
+            if int(FQ(a).sgn0) != _sgn0_rfc([a]):
+                bad.append(("FQ", curve, a))
+            for b in vals:
+                if int(FQ2([a, b]).sgn0) != _sgn0_rfc([a, b]):
+                    bad.append(("FQ2", curve, a, b))
+                if int(f.optimized_FQP.sgn0.func(FQ2([a, b]))) != _sgn0_rfc([a, b]):
+                    bad.append(("FQP2", curve, a, b))
+        for _ in range(30):
+            xs = [rng.choice([0, 0, 0, 1, 2, p - 1, rng.randrange(p)]) for _ in range(12)]
+            if int(FQ12(xs).sgn0) != _sgn0_rfc(xs):
+                bad.append(("FQ12", curve, xs))
+        if m:
+            xs = [int(m.get("x%d" % i, 0)) % p for i in range(12)]
+            if int(FQ12(xs).sgn0) != _sgn0_rfc(xs):
+                bad.append(("FQ12 model", curve, xs))
+    return (len(bad) > 0), "c14_sgn0: %d mismatches; first %s" % (len(bad), str(bad[:1])[:300])
+
+
+def replay_c14_diff(args):
+    """random + boundary differential run of the reference and optimized class of one kind."""
+    from py_ecc import fields as f
+    curve, kind = args["curve"], args["kind"]
+    RK = getattr(f, "%s_%s" % (curve, kind))
+    OK = getattr(f, "optimized_%s_%s" % (curve, kind))
+    p = RK.field_modulus
+    rng = random.Random(17)
+    pts = args.get("point") or {}
+    bad = []
+    if kind == "FQ":
+        vals = [0, 1, 2, p - 1, (p - 1) // 2] + [rng.randrange(p) for _ in range(5)]
+        ks = [0, 1, -1, p, p + 1, -2 * p - 3, 2 ** 300]
+        if pts:
+            vals += [int(pts.get("a", 1)) % p, int(pts.get("b", 1)) % p]
+            ks.append(int(pts.get("k", 1)))
+        ops = [lambda x, y, k: x + y, lambda x, y, k: x - y, lambda x, y, k: x * y, lambda x, y, k: x / y, lambda x, y, k: -x,
+               lambda x, y, k: x + k, lambda x, y, k: k - x, lambda x, y, k: x * k, lambda x, y, k: x / k, lambda x, y, k: k / x,
+               lambda x, y, k: x ** 7, lambda x, y, k: x ** 0, lambda x, y, k: type(x)(k)]
+        for a in vals:
+            for b in vals:
+                for k in ks:
+                    for i, op in enumerate(ops):
+                        try:
+                            if op(RK(a), RK(b), k).n != op(OK(a), OK(b), k).n:
+                                bad.append((i, a, b, k))
+                        except Exception as e:
+                            bad.append((repr(e), i, a, b, k))
+                if (RK(a) == RK(b)) != (OK(a) == OK(b)) or (RK(a) < RK(b)) != (OK(a) < OK(b)):
+                    bad.append(("cmp", a, b))
+    else:
+        deg = int(kind[2:])
+        elems = [[0] * deg, [1] + [0] * (deg - 1), [p - 1] * deg] + [[rng.randrange(p) for _ in range(deg)] for _ in range(4)]
+        for i in range(deg):
+            e = [0] * deg
+            e[i] = rng.randrange(1, p)
+            elems.append(e)
+        if pts:
+            elems.append([int(pts.get("a%d" % i, 0)) % p for i in range(deg)])
+        ops = [lambda x, y, k: x + y, lambda x, y, k: x - y, lambda x, y, k: x * y, lambda x, y, k: -x, lambda x, y, k: x * k,
+               lambda x, y, k: k * x, lambda x, y, k: x / k, lambda x, y, k: x ** 3, lambda x, y, k: x.inv(), lambda x, y, k: y / x]
+        for a in elems:
+            for b in elems[:6]:
+                for k in (0, 1, -1, p + 2, int(pts.get("k", 5))):
+                    for i, op in enumerate(ops):
+                        try:
+                            if _ints(op(RK(a), RK(b), k)) != _ints(op(OK(a), OK(b), k)):
+                                bad.append((i, a, b, k))
+                        except Exception as e:
+                            bad.append((repr(e), i))
+                if (RK(a) == RK(b)) != (OK(a) == OK(b)):
+                    bad.append(("eq", a, b))
+    return (len(bad) > 0), "c14_diff %s %s: %d mismatches; first %s" % (curve, kind, len(bad), str(bad[:1])[:300])
